@@ -1,178 +1,719 @@
-// probe (temporary)
+// h05: correspondence harness for C05 (placement: constraints, resources, ports, decline).
+//
+// Layer 1 (in this process): constraint.Attributes.Satisfy, Constraints.MergeParent,
+// port.RangesFromExpression, mesos-go Ranges operations, task.Resources.Satisfy on generated
+// inputs.
+// Layer 2 (child processes, because a round may crash the core): workflows are loaded by the real
+// loader inside the in-process core (internal/simcore), their descriptors are read
+// (roleBase.getConstraints through GenerateTaskDescriptors, Manager.BuildDescriptorConstraints,
+// Manager.GetWantsForDescriptor) and whole OFFERS rounds are run through the real handler
+// (Manager.acquireTasks -> REVIVE -> OFFERS -> resourceOffers -> ACCEPT/DECLINE), observing the
+// calls the simulated master receives joined with the offers it sent.
 package main
 
 import (
+	"bufio"
 	"encoding/json"
 	"fmt"
 	"os"
+	"os/exec"
+	"path/filepath"
+	"sort"
+	"strings"
 	"time"
 
-	"github.com/AliceO2Group/Control/common/event"
-	"github.com/AliceO2Group/Control/common/gera"
-	"github.com/AliceO2Group/Control/common/utils/uid"
-	"github.com/AliceO2Group/Control/core/task/channel"
-	"github.com/AliceO2Group/Control/core/workflow"
-	"verif/harness/internal/simcore"
-	"github.com/sirupsen/logrus"
+	"github.com/AliceO2Group/Control/core/task"
+	"github.com/AliceO2Group/Control/core/task/constraint"
+	"github.com/AliceO2Group/Control/core/task/taskclass/port"
+	mesos "github.com/mesos/mesos-go/api/v1/lib"
+
+	"verif/harness/internal/gen"
 )
 
-const wf = `name: probe
-defaults:
-  deploy_timeout: 5s
-constraints:
-  - attribute: zone
-    value: z1
-roles:
-  - name: "g"
-    constraints:
-      - attribute: rack
-        value: r1
-    roles:
-      - name: "t1"
-        constraints:
-          - attribute: zone
-            value: z2
-        task:
-          load: cA
-          critical: false
-      - name: "t2"
-        bind:
-          - name: rb
-            type: pull
-            addressing: tcp
-        task:
-          load: cB
-          critical: false
-`
-const wf2 = `name: probe2
-defaults:
-  deploy_timeout: 5s
-constraints:
-  - attribute: zone
-    value: z1
-  - attribute: zone
-    value: z2
-roles:
-  - name: "t1"
-    constraints:
-      - attribute: zone
-        value: z3
-    task:
-      load: cC
-      critical: false
-`
-const cC = `name: cC
-control:
-  mode: direct
-wants:
-  cpu: 0.1
-  memory: 64
-bind:
-  - name: out
-    type: push
-    addressing: tcp
-command:
-  env: []
-  shell: true
-  value: "sleep 1000"
-`
-const cA = `name: cA
-control:
-  mode: basic
-wants:
-  cpu: 0.6
-  memory: 64
-  ports: "9000-9002,9050"
-constraints:
-  - attribute: rack
-    value: r0
-  - attribute: kind
-    value: flp
-command:
-  env: []
-  shell: true
-  value: "sleep 1000"
-`
-const cB = `name: cB
-control:
-  mode: fairmq
-wants:
-  cpu: 0.6
-  memory: 64
-bind:
-  - name: out
-    type: push
-    addressing: tcp
-  - name: ipcch
-    type: push
-    addressing: ipc
-command:
-  env: []
-  shell: true
-  value: "sleep 1000"
-`
+// ---------------------------------------------------------------- shared description types
+
+type cst struct {
+	A  string `json:"a"`
+	V  string `json:"v"`
+	Op int    `json:"op,omitempty"`
+}
+
+type chn struct {
+	Name   string `json:"name"`
+	Tcp    bool   `json:"tcp"`
+	Global string `json:"global,omitempty"`
+}
+
+type classSpec struct {
+	Name     string      `json:"name"`
+	Cts      []cst       `json:"cts,omitempty"`
+	Cpu      int64       `json:"cpu"` // thousandths
+	Mem      int64       `json:"mem"`
+	Expr     *string     `json:"expr,omitempty"` // wants.ports as written (nil: key absent)
+	Intended [][2]uint64 `json:"intended,omitempty"`
+	Bind     []chn       `json:"bind,omitempty"`
+	Mode     string      `json:"mode"` // basic | direct | fairmq
+}
+
+type taskSpec struct {
+	Role    string    `json:"role"`   // role name, unique in the workflow
+	Levels  [][]cst   `json:"levels"` // own constraints: task role first, top-level role last
+	RBind   []chn     `json:"rbind,omitempty"`
+	Class   classSpec `json:"class"`
+	Unknown bool      `json:"unknown,omitempty"` // descriptor is handed over with an unknown class name
+}
+
+type agentSpec struct {
+	Host  string            `json:"host"`
+	Attrs map[string]string `json:"attrs,omitempty"`
+	Cpu   int64             `json:"cpu"`
+	Mem   int64             `json:"mem"`
+	Ports [][2]uint64       `json:"ports,omitempty"`
+	Execs []string          `json:"execs,omitempty"`
+}
+
+// simSpec is one case that needs the in-process core.
+type simSpec struct {
+	Mode    string            `json:"mode"` // round | desc | nodesc
+	Wf      string            `json:"wf"`
+	Yaml    string            `json:"yaml"`
+	Classes map[string]string `json:"classes"`
+	Tasks   []taskSpec        `json:"tasks"`
+	Agents  []agentSpec       `json:"agents,omitempty"`
+}
+
+// what the child reports for one spec
+type obsTask struct {
+	Desc   int         `json:"desc"`
+	Dyn    [][2]uint64 `json:"dyn"` // (channel code, port) in merged channel order
+	Handed *uint64     `json:"handed,omitempty"`
+	Req    [][2]uint64 `json:"req"`
+	Cpu    int64       `json:"cpu"`
+	Mem    int64       `json:"mem"`
+	Reuse  bool        `json:"reuse"`
+	Agent  string      `json:"agent"`
+}
+
+type obsDesc struct {
+	Role   string      `json:"role"`
+	RoleC  []cst       `json:"roleC"`
+	Merged []cst       `json:"merged"`
+	HasW   bool        `json:"hasW"`
+	WCpu   int64       `json:"wcpu"`
+	WMem   int64       `json:"wmem"`
+	WStat  [][2]uint64 `json:"wstat"`
+	WCh    []chn       `json:"wch"`
+}
+
+type simObs struct {
+	Err      string       `json:"err,omitempty"`
+	Crash    bool         `json:"crash,omitempty"`
+	CrashMsg string       `json:"crashMsg,omitempty"`
+	Order    []string     `json:"order,omitempty"` // role names in the order of the real descriptor list
+	Descs    []obsDesc    `json:"descs,omitempty"`
+	Accepts  [][]obsTask  `json:"accepts,omitempty"` // per agent index; nil entry = no ACCEPT for that offer
+	Accepted []bool       `json:"accepted,omitempty"`
+	Declined []int        `json:"declined,omitempty"`
+	ExecCpu  int64        `json:"execCpu"`
+	ExecMem  int64        `json:"execMem"`
+	Extra    []string     `json:"extra,omitempty"` // anything unexpected (calls for unknown offers, ...)
+}
+
+// ---------------------------------------------------------------- Coq printers
+
+func cstTerm(c cst) string {
+	return fmt.Sprintf("(mkC %s %s %d)", gen.Str(c.A), gen.Str(c.V), c.Op)
+}
+func cstsTerm(l []cst) string {
+	items := make([]string, len(l))
+	for i, c := range l {
+		items[i] = cstTerm(c)
+	}
+	return gen.List(items)
+}
+func levelsTerm(l [][]cst) string {
+	items := make([]string, len(l))
+	for i, c := range l {
+		items[i] = cstsTerm(c)
+	}
+	return gen.List(items)
+}
+func rangesTerm(l [][2]uint64) string {
+	items := make([]string, len(l))
+	for i, r := range l {
+		items[i] = fmt.Sprintf("(%d, %d)", r[0], r[1])
+	}
+	return gen.List(items)
+}
+func optN(p *int64) string {
+	if p == nil {
+		return "None"
+	}
+	return fmt.Sprintf("(Some %d)", *p)
+}
+func optRanges(ok bool, l [][2]uint64) string {
+	if !ok {
+		return "None"
+	}
+	return "(Some " + rangesTerm(l) + ")"
+}
+
+var chanCodes = map[string]uint64{}
+
+func chanCode(name string) uint64 {
+	if c, ok := chanCodes[name]; ok {
+		return c
+	}
+	// stable code: channel names are drawn from a fixed vocabulary c<digits>
+	var n uint64
+	for i := 0; i < len(name); i++ {
+		n = n*131 + uint64(name[i])
+	}
+	n = n%1000003 + 1
+	chanCodes[name] = n
+	return n
+}
+func chansTerm(l []chn) string {
+	items := make([]string, len(l))
+	for i, c := range l {
+		items[i] = fmt.Sprintf("(mkChan %d %s)", chanCode(c.Name), gen.Bool(c.Tcp))
+	}
+	return gen.List(items)
+}
+func attrsTerm(m map[string]string) string {
+	keys := make([]string, 0, len(m))
+	for k := range m {
+		keys = append(keys, k)
+	}
+	sort.Strings(keys) // simcore.MakeOffer emits attributes sorted by name
+	items := make([]string, len(keys))
+	for i, k := range keys {
+		items[i] = gen.Pair(gen.Str(k), gen.Str(m[k]))
+	}
+	return gen.List(items)
+}
+func rawClassTerm(c classSpec) string {
+	expr := ""
+	if c.Expr != nil {
+		expr = *c.Expr
+	}
+	return fmt.Sprintf("(mkRaw %s %d %d %s %s %s %s)", cstsTerm(c.Cts), c.Cpu, c.Mem, gen.Str(expr),
+		rangesTerm(c.Intended), chansTerm(c.Bind), gen.Bool(c.Mode != "basic"))
+}
+func rawDescTerm(t taskSpec) string {
+	k := "None"
+	if !t.Unknown {
+		k = "(Some " + rawClassTerm(t.Class) + ")"
+	}
+	return fmt.Sprintf("(mkRawDesc %s %s %s)", levelsTerm(t.Levels), chansTerm(t.RBind), k)
+}
+func offerTerm(i int, a agentSpec, agentIdx map[string]int) string {
+	ports := "None"
+	if len(a.Ports) > 0 {
+		ports = "(Some " + rangesTerm(a.Ports) + ")"
+	}
+	return fmt.Sprintf("(mkOffer %d %d %s (Some %d) (Some %d) %s %d)", i, agentIdx[a.Host], attrsTerm(a.Attrs),
+		a.Cpu, a.Mem, ports, len(a.Execs))
+}
+
+// ---------------------------------------------------------------- layer 1: pure functions
+
+type attrIn struct {
+	N    string `json:"n"`
+	V    string `json:"v"`
+	Text bool   `json:"text"` // false: a scalar attribute (Get yields "")
+}
+
+type pureIn struct {
+	Attrs   []attrIn    `json:"attrs,omitempty"`
+	Cts     []cst       `json:"cts,omitempty"`
+	Own     []cst       `json:"own,omitempty"`
+	Parent  []cst       `json:"parent,omitempty"`
+	Expr    string      `json:"expr,omitempty"`
+	HasInt  bool        `json:"hasInt,omitempty"`
+	Int     [][2]uint64 `json:"int,omitempty"`
+	Op      int         `json:"op,omitempty"`
+	Rs      [][2]uint64 `json:"rs,omitempty"`
+	Lo      uint64      `json:"lo,omitempty"`
+	Hi      uint64      `json:"hi,omitempty"`
+	Rs2     [][2]uint64 `json:"rs2,omitempty"`
+	Cpu     *int64      `json:"cpu,omitempty"`
+	Mem     *int64      `json:"mem,omitempty"`
+	HasP    bool        `json:"hasP,omitempty"`
+	Ports   [][2]uint64 `json:"ports,omitempty"`
+	WCpu    int64       `json:"wcpu,omitempty"`
+	WMem    int64       `json:"wmem,omitempty"`
+	Static  [][2]uint64 `json:"static,omitempty"`
+	NChans  int         `json:"nchans,omitempty"`
+}
+
+func toConstraints(l []cst) constraint.Constraints {
+	out := make(constraint.Constraints, len(l))
+	for i, c := range l {
+		out[i] = constraint.Constraint{Attribute: c.A, Value: c.V, Operator: constraint.Operator(c.Op)}
+	}
+	return out
+}
+func fromConstraints(l constraint.Constraints) []cst {
+	out := make([]cst, len(l))
+	for i, c := range l {
+		out[i] = cst{c.Attribute, c.Value, int(c.Operator)}
+	}
+	return out
+}
+
+func caseSatisfy(in pureIn) gen.Case {
+	var attrs constraint.Attributes
+	var items []string
+	for _, a := range in.Attrs {
+		if a.Text {
+			attrs = append(attrs, mesos.Attribute{Name: a.N, Type: mesos.TEXT, Text: &mesos.Value_Text{Value: a.V}})
+			items = append(items, gen.Pair(gen.Str(a.N), gen.Str(a.V)))
+		} else {
+			attrs = append(attrs, mesos.Attribute{Name: a.N, Type: mesos.SCALAR, Scalar: &mesos.Value_Scalar{Value: 1}})
+			items = append(items, gen.Pair(gen.Str(a.N), gen.Str("")))
+		}
+	}
+	ok := attrs.Satisfy(toConstraints(in.Cts))
+	return gen.Case{Term: fmt.Sprintf("CSatisfy %s %s %s", gen.List(items), cstsTerm(in.Cts), gen.Bool(ok)),
+		Kind: "satisfy", Input: in, Obs: ok}
+}
+
+func caseMergeParent(in pureIn) gen.Case {
+	m := toConstraints(in.Own).MergeParent(toConstraints(in.Parent))
+	obs := fromConstraints(m)
+	return gen.Case{Term: fmt.Sprintf("CMergeParent %s %s %s", cstsTerm(in.Own), cstsTerm(in.Parent), cstsTerm(obs)),
+		Kind: "mergeparent", Input: in, Obs: obs}
+}
+
+func fromPortRanges(rs port.Ranges) [][2]uint64 {
+	out := make([][2]uint64, len(rs))
+	for i, r := range rs {
+		out[i] = [2]uint64{r.Begin, r.End}
+	}
+	return out
+}
+
+func caseParse(in pureIn) gen.Case {
+	rs, err := port.RangesFromExpression(in.Expr)
+	obs := fromPortRanges(rs)
+	var o interface{} = obs
+	if err != nil {
+		o = "error"
+	}
+	return gen.Case{Term: fmt.Sprintf("CParse %s %s %s", gen.Str(in.Expr), optRanges(in.HasInt, in.Int), optRanges(err == nil, obs)),
+		Kind: "parse", Input: in, Obs: o}
+}
+
+func toMesosRanges(l [][2]uint64) mesos.Ranges {
+	out := make(mesos.Ranges, len(l))
+	for i, r := range l {
+		out[i] = mesos.Value_Range{Begin: r[0], End: r[1]}
+	}
+	return out
+}
+func fromMesosRanges(l mesos.Ranges) [][2]uint64 {
+	out := make([][2]uint64, len(l))
+	for i, r := range l {
+		out[i] = [2]uint64{r.Begin, r.End}
+	}
+	return out
+}
+
+func caseRangeOp(in pureIn) (c gen.Case) {
+	canon := func(l [][2]uint64) mesos.Ranges { return toMesosRanges(l).Sort().Squash() }
+	num := "None"
+	var rs [][2]uint64
+	func() {
+		defer func() {
+			if r := recover(); r != nil {
+				num, rs = "None", nil // Min on empty ranges
+			}
+		}()
+		switch in.Op {
+		case 0:
+			rs = fromMesosRanges(canon(in.Rs))
+		case 1:
+			rs = fromMesosRanges(canon(in.Rs).Remove(mesos.Value_Range{Begin: in.Lo, End: in.Hi}))
+		case 2:
+			num = fmt.Sprintf("(Some %d)", canon(in.Rs).Min())
+		case 3:
+			num = fmt.Sprintf("(Some %d)", canon(in.Rs).Size())
+		default:
+			in.Op = 4
+			switch canon(in.Rs).Compare(canon(in.Rs2)) {
+			case 0:
+				num = "(Some 0)"
+			case -1:
+				num = "(Some 1)"
+			default:
+				num = "(Some 2)"
+			}
+		}
+	}()
+	return gen.Case{Term: fmt.Sprintf("CRangeOp %d %s %d %d %s (%s, %s)", in.Op, rangesTerm(in.Rs), in.Lo, in.Hi,
+		rangesTerm(in.Rs2), num, rangesTerm(rs)), Kind: "rangeop", Input: in, Obs: map[string]interface{}{"num": num, "rs": rs}}
+}
+
+func milli(v int64) float64 { return float64(v) / 1000.0 }
+
+func caseResSat(in pureIn) gen.Case {
+	var res mesos.Resources
+	if in.Cpu != nil {
+		res = append(res, mesos.Resource{Name: "cpus", Type: mesos.SCALAR.Enum(), Scalar: &mesos.Value_Scalar{Value: milli(*in.Cpu)}})
+	}
+	if in.Mem != nil {
+		res = append(res, mesos.Resource{Name: "mem", Type: mesos.SCALAR.Enum(), Scalar: &mesos.Value_Scalar{Value: milli(*in.Mem)}})
+	}
+	if in.HasP {
+		vr := &mesos.Value_Ranges{}
+		for _, p := range in.Ports {
+			vr.Range = append(vr.Range, mesos.Value_Range{Begin: p[0], End: p[1]})
+		}
+		res = append(res, mesos.Resource{Name: "ports", Type: mesos.RANGES.Enum(), Ranges: vr})
+	}
+	w := &task.Wants{Cpu: milli(in.WCpu), Memory: milli(in.WMem)}
+	for _, r := range in.Static {
+		w.StaticPorts = append(w.StaticPorts, port.Range{Begin: r[0], End: r[1]})
+	}
+	w.InboundChannels = nil
+	for i := 0; i < in.NChans; i++ {
+		w.InboundChannels = append(w.InboundChannels, inboundFor(chn{Name: fmt.Sprintf("c%d", i), Tcp: true}))
+	}
+	ok := task.Resources(res).Satisfy(w)
+	return gen.Case{Term: fmt.Sprintf("CResSat %s %s %s %d %d %s %d %s", optN(in.Cpu), optN(in.Mem), optRanges(in.HasP, in.Ports),
+		in.WCpu, in.WMem, rangesTerm(in.Static), in.NChans, gen.Bool(ok)), Kind: "ressat", Input: in, Obs: ok}
+}
+
+// ---------------------------------------------------------------- layer 2: cases from child observations
+
+func caseFromSim(sp simSpec, ob simObs) []gen.Case {
+	byRole := map[string]taskSpec{}
+	for _, t := range sp.Tasks {
+		byRole[t.Role] = t
+	}
+	in := sp
+	if ob.Err != "" {
+		// the workflow could not be loaded / the round could not be run: a harness problem, made
+		// visible as a case that cannot match
+		return []gen.Case{{Term: "CParse [] (Some []) None", Kind: "sim-error", Input: in, Obs: ob}}
+	}
+	switch sp.Mode {
+	case "desc":
+		var out []gen.Case
+		for _, d := range ob.Descs {
+			t := byRole[d.Role]
+			w := "None"
+			if d.HasW {
+				w = fmt.Sprintf("(Some (%d, %d, %s, %s))", d.WCpu, d.WMem, rangesTerm(d.WStat), chansTerm(d.WCh))
+			}
+			one := sp
+			one.Tasks = []taskSpec{t}
+			out = append(out, gen.Case{Term: fmt.Sprintf("CDesc %s %s %s %s", rawDescTerm(t), cstsTerm(d.RoleC), cstsTerm(d.Merged), w),
+				Kind: "desc", Input: one, Obs: d})
+		}
+		return out
+	default:
+		agentIdx := map[string]int{}
+		for _, a := range sp.Agents {
+			if _, ok := agentIdx[a.Host]; !ok {
+				agentIdx[a.Host] = len(agentIdx)
+			}
+		}
+		offers := make([]string, len(sp.Agents))
+		for i, a := range sp.Agents {
+			offers[i] = offerTerm(i, a, agentIdx)
+		}
+		// descriptors in the order the real code handed them to the scheduler
+		var descs []string
+		if ob.Crash {
+			// the child died: the descriptor order was reported before the round started
+		}
+		for _, r := range ob.Order {
+			descs = append(descs, rawDescTerm(byRole[r]))
+		}
+		obs := "RCrash"
+		if !ob.Crash {
+			acc := make([]string, len(sp.Agents))
+			for i := range sp.Agents {
+				if i >= len(ob.Accepted) || !ob.Accepted[i] {
+					acc[i] = "None"
+					continue
+				}
+				ts := make([]string, len(ob.Accepts[i]))
+				for j, t := range ob.Accepts[i] {
+					dyn := make([]string, len(t.Dyn))
+					for k, d := range t.Dyn {
+						dyn[k] = fmt.Sprintf("(%d, %d)", d[0], d[1])
+					}
+					h := "None"
+					if t.Handed != nil {
+						h = fmt.Sprintf("(Some %d)", *t.Handed)
+					}
+					ts[j] = fmt.Sprintf("(mkOT %d %s %s %s %d %d %s)", t.Desc, gen.List(dyn), h, rangesTerm(t.Req), t.Cpu, t.Mem, gen.Bool(t.Reuse))
+				}
+				acc[i] = "(Some " + gen.List(ts) + ")"
+			}
+			dec := make([]string, len(ob.Declined))
+			for i, d := range ob.Declined {
+				dec[i] = fmt.Sprintf("%d", d)
+			}
+			obs = fmt.Sprintf("(RDone %s %s)", gen.List(acc), gen.List(dec))
+		}
+		kind := sp.Mode
+		return []gen.Case{{Term: fmt.Sprintf("CRound %s %s %d %d %s", gen.List(offers), gen.List(descs), ob.ExecCpu, ob.ExecMem, obs),
+			Kind: kind, Input: in, Obs: ob}}
+	}
+}
+
+// runSim executes the specs in child processes (batches; a crashed child is restarted after the
+// spec that killed it, which is recorded as a crash).
+func runSim(specs []simSpec, workRoot string) ([]simObs, error) {
+	out := make([]simObs, len(specs))
+	const batch = 40
+	next := 0
+	childNo := 0
+	for next < len(specs) {
+		hi := next + batch
+		if hi > len(specs) {
+			hi = len(specs)
+		}
+		childNo++
+		dir := filepath.Join(workRoot, fmt.Sprintf("child%03d", childNo))
+		os.RemoveAll(dir)
+		if err := os.MkdirAll(dir, 0o755); err != nil {
+			return nil, err
+		}
+		specFile := filepath.Join(dir, "specs.json")
+		resFile := filepath.Join(dir, "results.jsonl")
+		b, _ := json.Marshal(specs[next:hi])
+		if err := os.WriteFile(specFile, b, 0o644); err != nil {
+			return nil, err
+		}
+		cmd := exec.Command(os.Args[0], "-child", specFile, resFile, filepath.Join(dir, "sim"))
+		var stderr strings.Builder
+		cmd.Stderr = &stderr
+		cmd.Stdout = &stderr
+		done := make(chan error, 1)
+		if err := cmd.Start(); err != nil {
+			return nil, err
+		}
+		go func() { done <- cmd.Wait() }()
+		var werr error
+		select {
+		case werr = <-done:
+		case <-time.After(180 * time.Second):
+			cmd.Process.Kill()
+			<-done
+			return nil, fmt.Errorf("child %d hung (specs %d..%d); stderr tail: %s", childNo, next, hi, tail(stderr.String(), 2000))
+		}
+		// read what the child managed to report
+		got := 0
+		var pending *simObs // "started" marker of a spec without a result
+		if f, err := os.Open(resFile); err == nil {
+			sc := bufio.NewScanner(f)
+			sc.Buffer(make([]byte, 1<<20), 1<<26)
+			for sc.Scan() {
+				var rec struct {
+					Start bool   `json:"start"`
+					Obs   simObs `json:"obs"`
+				}
+				if json.Unmarshal(sc.Bytes(), &rec) != nil {
+					continue
+				}
+				if rec.Start {
+					o := rec.Obs
+					pending = &o
+				} else {
+					out[next+got] = rec.Obs
+					got++
+					pending = nil
+				}
+			}
+			f.Close()
+		}
+		if werr == nil && got == hi-next {
+			next = hi
+			os.RemoveAll(dir)
+			continue
+		}
+		// the child died while working on spec next+got
+		if next+got >= hi {
+			return nil, fmt.Errorf("child %d failed after finishing its batch: %v\n%s", childNo, werr, tail(stderr.String(), 2000))
+		}
+		st := stderr.String()
+		o := simObs{Crash: true, CrashMsg: crashClass(st)}
+		if pending != nil {
+			o.Order, o.ExecCpu, o.ExecMem, o.Descs = pending.Order, pending.ExecCpu, pending.ExecMem, pending.Descs
+		} else {
+			// died before the round was even set up: not a placement crash
+			return nil, fmt.Errorf("child %d died outside a round (spec %d): %v\n%s", childNo, next+got, werr, tail(st, 3000))
+		}
+		out[next+got] = o
+		next = next + got + 1
+		os.RemoveAll(dir)
+	}
+	return out, nil
+}
+
+func tail(s string, n int) string {
+	if len(s) > n {
+		return s[len(s)-n:]
+	}
+	return s
+}
+
+// crashClass projects a Go panic report to a stable class.
+func crashClass(stderr string) string {
+	switch {
+	case strings.Contains(stderr, "Ranges.Min") && strings.Contains(stderr, "makeTaskForMesosResources"):
+		return "panic: Ranges.Min on empty ranges in makeTaskForMesosResources"
+	case strings.Contains(stderr, "panic:"):
+		i := strings.Index(stderr, "panic:")
+		line := stderr[i:]
+		if j := strings.Index(line, "\n"); j >= 0 {
+			line = line[:j]
+		}
+		return line
+	case strings.Contains(stderr, "fatal error:"):
+		i := strings.Index(stderr, "fatal error:")
+		line := stderr[i:]
+		if j := strings.Index(line, "\n"); j >= 0 {
+			line = line[:j]
+		}
+		return line
+	}
+	return "child process died"
+}
+
+// ---------------------------------------------------------------- main
+
+type anyIn struct {
+	Pure *pureIn  `json:"pure,omitempty"`
+	Sim  *simSpec `json:"sim,omitempty"`
+}
 
 func main() {
-	s, err := simcore.New(simcore.Options{
-		WorkDir:     "/verif/build/sim/c05probe",
-		Workflows:   map[string]string{"probe": wf, "probe2": wf2},
-		TaskClasses: map[string]string{"cA": cA, "cB": cB, "cC": cC},
-		Agents:      nil,
-		Quiet:       os.Getenv("SIM_VERBOSE") == "", Settings: map[string]interface{}{"veryVerbose": true},
-	})
-	if err != nil {
-		fmt.Println("ERR", err)
-		os.Exit(1)
+	if len(os.Args) >= 5 && os.Args[1] == "-child" {
+		childMain(os.Args[2], os.Args[3], os.Args[4])
+		return
 	}
-	if os.Getenv("SIM_VERBOSE") != "" { logrus.SetLevel(logrus.TraceLevel) }; t0 := time.Now()
-	envId := uid.New()
-	pa := workflow.NewParentAdapter(
-		func() uid.ID { return envId },
-		func() uint32 { return 0 },
-		func() gera.Map[string, string] { return gera.MakeMap[string, string]() },
-		func() gera.Map[string, string] { return gera.MakeMap[string, string]() },
-		func() gera.Map[string, string] { return gera.MakeMap[string, string]() },
-		func(ev event.Event) {},
-	)
-	wfn := "probe"; if len(os.Args) > 1 { wfn = os.Args[1] }
-	w, err := workflow.Load(wfn, pa, s.Taskman, map[string]string{}, map[string]string{})
-	fmt.Println("load:", err, time.Since(t0))
-	ds := w.GenerateTaskDescriptors()
-	cm := s.Taskman.BuildDescriptorConstraints(ds)
-	for _, d := range ds {
-		fmt.Println("desc", d.TaskClassName, d.RoleConstraints, "merged", cm[d], "bind", d.RoleBind)
+	if len(os.Args) >= 3 && os.Args[1] == "-emit-corpus" {
+		emitCorpus(os.Args[2])
+		return
 	}
-	ports := [][2]uint64{{9000, 9100}, {30000, 30100}}
-	if len(os.Args) > 2 && os.Args[2] == "exhaust" { ports = [][2]uint64{{9000, 9000}} }
-	if len(os.Args) > 2 && os.Args[2] == "nocontrol" { ports = [][2]uint64{{9000, 9100}} }
-	s.Opts.Agents = []simcore.Agent{{Hostname: "host1", CPUs: 1.0, Mem: 4096, Ports: ports,
-		Attributes: map[string]string{"machine_id": "host1", "zone": "z2", "rack": "r1", "kind": "flp,epn"}}}
-	n0 := len(s.CallsSnapshot())
-	t1 := time.Now()
-	err = s.Taskman.VerifC05AcquireTasks(envId, ds)
-	fmt.Println("acquire:", err, time.Since(t1))
-	for _, c := range s.CallsSnapshot()[n0:] {
-		fmt.Println(c.Seq, c.Type, c.Offer, len(c.Tasks))
-		for _, ti := range c.Tasks {
-			fmt.Println("  task", ti.Name, ti.AgentID.Value, ti.Executor.ExecutorID.Value)
-			for _, r := range ti.Resources {
-				fmt.Println("   res", r.Name, r.GetScalar().GetValue(), r.GetRanges().GetRange())
-			}
-			fmt.Println("   execres", ti.Executor.Resources)
-			var cmd map[string]interface{}
-			json.Unmarshal(ti.Data, &cmd)
-			fmt.Println("   cmd", cmd["controlPort"], cmd["controlMode"], cmd["env"], cmd["arguments"])
-			t := s.Taskman.GetTask(ti.TaskID.Value)
-			if t != nil {
-				for k, e := range t.GetLocalBindMap() {
-					if tcp, ok := e.(channel.TcpEndpoint); ok {
-						fmt.Println("   bind", k, "tcp", tcp.Port)
-					} else {
-						fmt.Println("   bind", k, e.GetAddress())
-					}
+	o := gen.ParseFlags()
+	build := os.Getenv("VERIF_BUILD")
+	if build == "" {
+		build = "/verif/build"
+	}
+	workRoot := filepath.Join(build, "sim", "c05")
+	os.MkdirAll(workRoot, 0o755)
+
+	type item struct {
+		kind string
+		pure *pureIn
+		sim  *simSpec
+	}
+	var items []item
+	addReplay := func(path string) {
+		ins, kinds, err := gen.LoadReplay(path)
+		if err != nil {
+			fmt.Fprintln(os.Stderr, "replay:", err)
+			os.Exit(2)
+		}
+		for i, raw := range ins {
+			switch kinds[i] {
+			case "satisfy", "mergeparent", "parse", "rangeop", "ressat":
+				var in pureIn
+				if err := json.Unmarshal(raw, &in); err != nil {
+					panic(err)
 				}
+				items = append(items, item{kind: kinds[i], pure: &in})
+			default:
+				var sp simSpec
+				if err := json.Unmarshal(raw, &sp); err != nil {
+					panic(err)
+				}
+				items = append(items, item{kind: kinds[i], sim: &sp})
 			}
 		}
 	}
-	fmt.Println("offerlog", len(s.OfferLog))
+	if o.Replay != "" {
+		addReplay(o.Replay)
+	} else {
+		// corpus first: witnesses of the refuted theorems and regressions of the two repaired defects
+		files, _ := filepath.Glob("corpus/C05/*.json")
+		sort.Strings(files)
+		for _, f := range files {
+			addReplay(f)
+		}
+		g := newGenerator(o.Seed)
+		nRound := o.N / 12
+		nDesc := o.N / 12
+		nNoDesc := o.N / 120
+		nPure := o.N - nRound - nDesc - nNoDesc
+		for i := 0; i < nPure; i++ {
+			k, in := g.pure(i)
+			items = append(items, item{kind: k, pure: &in})
+		}
+		for i := 0; i < nDesc; i++ {
+			sp := g.descSpec(i)
+			items = append(items, item{kind: "desc", sim: &sp})
+		}
+		for i := 0; i < nRound; i++ {
+			sp := g.roundSpec(i)
+			items = append(items, item{kind: "round", sim: &sp})
+		}
+		for i := 0; i < nNoDesc; i++ {
+			sp := g.noDescSpec(i)
+			items = append(items, item{kind: "nodesc", sim: &sp})
+		}
+	}
+
+	// run
+	var specs []simSpec
+	for _, it := range items {
+		if it.sim != nil {
+			specs = append(specs, *it.sim)
+		}
+	}
+	// workflow and class names must be unique across one child batch: rename by position
+	for i := range specs {
+		renameSpec(&specs[i], i)
+	}
+	obs, err := runSim(specs, workRoot)
+	if err != nil {
+		fmt.Fprintln(os.Stderr, "h05:", err)
+		os.Exit(2)
+	}
+	var cases []gen.Case
+	si := 0
+	crashes := 0
+	for _, it := range items {
+		if it.pure != nil {
+			switch it.kind {
+			case "satisfy":
+				cases = append(cases, caseSatisfy(*it.pure))
+			case "mergeparent":
+				cases = append(cases, caseMergeParent(*it.pure))
+			case "parse":
+				cases = append(cases, caseParse(*it.pure))
+			case "rangeop":
+				cases = append(cases, caseRangeOp(*it.pure))
+			case "ressat":
+				cases = append(cases, caseResSat(*it.pure))
+			}
+			continue
+		}
+		if obs[si].Crash {
+			crashes++
+		}
+		cases = append(cases, caseFromSim(specs[si], obs[si])...)
+		si++
+	}
+	extra := map[string]any{"sim_specs": len(specs), "core_crashes_observed": crashes}
+	if err := gen.WriteCases(o, "C05", "From Verif Require Import Placement.", "c05_case", "report05", cases, extra); err != nil {
+		panic(err)
+	}
 }
